@@ -84,9 +84,34 @@ def showOrigin : Option (Fwd × OReply) → String
     let st := match r with | .ok _ => "200" | .notMod _ _ => "304" | .precond => "412" | .error => "500"
     s!"{st}:{showFields f.inm}:{showFields f.im}:{showIms f.ims}"
 
-/-- line: `<versions> <steps>` (see props/C14.py) -/
+def showBit (b : Option Bool) : String :=
+  match b with | none => "-" | some true => "1" | some false => "0"
+
+/-- in-process line `c <etag> <lm> <ts> <method> <ranged> <inm> <im> <ims>` (see harness/c14.cc) -/
+def handleC (w : List String) : String :=
+  match w with
+  | [et, lm, ts, m, rg, inm, im, ims] =>
+    let etag : Option (Option Bytes) := if et == "n" then some none else (Bytes.ofHex et).map some
+    let lmv : Option (Option Int) := if lm == "n" then some none else lm.toInt?.map some
+    let imsv : Option (Option Int) := if ims == "n" then some none else ims.toInt?.map some
+    let meth : Option Method := if m == "G" then some .get else if m == "H" then some .head else if m == "P" then some .other else none
+    let ranged : Option Bool := if rg == "0" then some false else if rg == "1" then some true else none
+    match etag, lmv, ts.toInt?, meth, ranged, hexList inm, hexList im, imsv with
+    | some etag, some lmv, some ts, some meth, some ranged, some inm, some im, some imsv =>
+      -- the ETag field went through HttpHeaderEntry::parse: its value is trimmed
+      let e : EntryView := { status := 200, etag := etag.map trimValue, lastModified := lmv, timestamp := ts }
+      let r : Req := { method := meth, inm := inm, im := im, ims := imsv, ranged := ranged }
+      let a := im.map (hasIfMatchEtag e)
+      let b := inm.map (hasIfNoneMatchEtag e r)
+      let c := imsv.map (modifiedSince e)
+      s!"im={showBit a} inm={showBit b} mod={showBit c}"
+    | _, _, _, _, _, _, _, _ => "bad-op"
+  | _ => "bad-op"
+
+/-- line: `<versions> <steps>` or `c ...` (see props/C14.py) -/
 def handle (line : String) : String :=
   match Driver.words line with
+  | "c" :: rest => handleC rest
   | [vt, stt] =>
     match (vt.splitOn ";").mapM parseVer with
     | some vers =>
